@@ -1,5 +1,7 @@
-(** C16 - Diffs are faithful to both values.  Statements only; the proofs are in Diff/Proofs_*.v. *)
-From Dawn Require Import Diff.Model Diff.Proofs_Basic.
+(** C16 - Diffs are faithful to both values.  Statements only; the proofs are in Diff/Proofs_*.v.
+    Vocabulary: Diff/Model.v (the transcription of diff/*.go and function.go:diffEnv) and Diff/Spec.v. *)
+From Dawn Require Import Diff.Model Diff.Spec Diff.Proofs_Basic Diff.Proofs_Record Diff.Proofs_Search
+     Diff.Proofs_Seq Diff.Proofs_Value Diff.Proofs_Reason.
 Open Scope Z_scope.
 
 (** The diff of two values is empty exactly when they are equal (EqualDepth at the same depth says true). *)
@@ -13,3 +15,124 @@ Theorem diff_sides_in_order : forall route_size depth a b d,
   diff_depth route_size depth a b = Ok (Some d) -> dold d = a /\ dnew d = b.
 Proof. exact diff_depth_sides. Qed.
 Print Assumptions diff_sides_in_order.
+
+(** First layer of the sequence case.  ANY valid path (Spec.valid_path: a checkable predicate), walked by
+    recordSeq/extend and passed through the delete+add -> replace merge, gives a script whose old projection
+    (kept + deleted + old sides of replacements) is the old sequence and whose new projection is the new
+    sequence up to the equivalence, in order -- for either value of the swap flag [reverse], where the
+    walker's [a'], [b'] are (new, old) if [reverse] and (old, new) otherwise. *)
+Theorem record_faithful : forall (A : Type) (eqv : A -> A -> option bool) a' b' reverse pts s script,
+  valid_path A eqv a' b' pts = true ->
+  record_pts A a' b' reverse pts (mkR A 0 0 []) = Ok s ->
+  merge A (rev (redits A s)) [] = Ok script ->
+  faithful A eqv (if reverse then b' else a') (if reverse then a' else b') script.
+Proof. exact record_faithful_lemma. Qed.
+Print Assumptions record_faithful.
+
+(** Second layer.  The O(NP) search of compose (shorter sequence first), when it stops because the far corner
+    was reached (fp[delta] >= n, i.e. not because the route table was full), has recorded a chain of snake
+    end points that is a valid path. *)
+Theorem search_valid : forall (A : Type) (eqv : A -> A -> option bool) route_size a b size st epc,
+  zlen A a <= zlen A b ->
+  search A eqv route_size a b size = Ok st ->
+  zlen A b <= fp st (zlen A b - zlen A a + (zlen A a + 1)) ->
+  chain (S (length (routes st))) (routes st) (path st (zlen A b - zlen A a + (zlen A a + 1))) = Ok epc ->
+  valid_path A eqv a b (rev epc) = true.
+Proof. intros A eqv rs a b size st epc H. exact (search_valid_lemma A eqv rs a b size H st epc). Qed.
+Print Assumptions search_valid.
+
+(** Both layers together, for diffSlice on any element type: the edit script is faithful to both sequences
+    in the order given, whatever their relative lengths, provided the first search did not exhaust the
+    route table. *)
+Theorem seq_edits_faithful_generic : forall (A : Type) (eqv : A -> A -> option bool) route_size a b script,
+  diff_slice A eqv route_size a b = Ok script ->
+  exhausted A eqv route_size a b = Ok false ->
+  old_proj A script = a /\ Forall2 (equiv A eqv) (new_proj A script) b.
+Proof. exact diff_slice_faithful. Qed.
+Print Assumptions seq_edits_faithful_generic.
+
+(** The route table cannot fill up when (m+1)(n+1) <= defaultRouteSize (2 000 000: e.g. both sequences
+    shorter than 1 413 elements). *)
+Theorem route_table_suffices : forall (A : Type) (eqv : A -> A -> option bool) route_size a b script,
+  (zlen A a + 1) * (zlen A b + 1) <= route_size ->
+  diff_slice A eqv route_size a b = Ok script ->
+  exhausted A eqv route_size a b = Ok false.
+Proof. exact not_exhausted. Qed.
+Print Assumptions route_table_suffices.
+
+(** The same for DiffDepth on two sliceable Starlark values (strings, bytes, tuples, lists, in any
+    combination; [ea], [eb] are their elements as returned by Index): the diff is a SliceableDiff whose edits
+    show ([rendered]) the parts of a script whose old projection is [ea] and whose new projection is [eb] up
+    to EqualDepth, in order.  A replace payload entry is a nested diff carrying both elements, or None for a
+    pair that compares equal ([entry_shows]). *)
+Theorem seq_edits_faithful : forall route_size d a b ca ea cb eb df,
+  sliceable a = Some (ca, ea) -> sliceable b = Some (cb, eb) ->
+  diff_depth route_size (S d) a b = Ok (Some df) ->
+  (Z.of_nat (length ea) + 1) * (Z.of_nat (length eb) + 1) <= route_size ->
+  exists script edits,
+    df = DSlice a b edits /\
+    Forall2 (rendered d ca cb) script edits /\
+    Forall edit_shape script /\
+    old_proj value script = ea /\
+    Forall2 (equiv value (veq_d depth1000)) (new_proj value script) eb.
+Proof. exact seq_edits_faithful_bounded_lemma. Qed.
+Print Assumptions seq_edits_faithful.
+
+(** For mappings there is an edit exactly for each key added, removed or changed, of the right kind and
+    carrying the right values ... *)
+Theorem mapping_edits_exact : forall route_size d old new df,
+  diff_depth route_size (S d) (VDict old) (VDict new) = Ok (Some df) ->
+  exists edits, df = DMap (VDict old) (VDict new) edits /\
+                map_sound d old new edits /\ map_complete d old new edits.
+Proof. exact mapping_edits_exact_lemma. Qed.
+Print Assumptions mapping_edits_exact.
+
+(** ... in particular none for a key whose two values are equal (dict keys are distinct and equal to
+    themselves). *)
+Theorem mapping_no_edit_for_unchanged_key : forall route_size d old new edits k ov nv,
+  diff_depth route_size (S d) (VDict old) (VDict new) = Ok (Some (DMap (VDict old) (VDict new) edits)) ->
+  NoDup (map fst old) -> key_eq k k = true ->
+  In (k, ov) old -> dict_get k new = Some nv -> veq_d d ov nv = Some true ->
+  forall e, ~ In (k, e) edits.
+Proof.
+  intros rs d old new edits k ov nv D. apply mapping_edits_exact_lemma in D as (edits' & E & S & _).
+  inversion E; subst edits'. exact (unchanged_key_no_edit d old new edits k ov nv S).
+Qed.
+Print Assumptions mapping_no_edit_for_unchanged_key.
+
+(** The rebuild reason of an out-of-date target whose old and new environments are dicts that differ
+    (DiffDepth, which diffEnv calls at depth 1000, returns a diff) names a key of functionEnvKeys exactly when
+    the two environments differ at that key (present in one only, or bound to values that EqualDepth reports
+    unequal), whatever the outcome of the preliminary stamp comparison. *)
+Theorem reason_names_exactly_differing_keys : forall stamp route_size old new d r,
+  NoDup (map fst old) -> NoDup (map fst new) ->
+  diff_depth route_size depth1000 (VDict old) (VDict new) = Ok (Some d) ->
+  diff_env stamp route_size (VDict old) (VDict new) = Ok (false, r) ->
+  forall k, In k function_env_keys ->
+    (is_substr k r = true <->
+     env_differs (Nat.pred depth1000) (dict_get (VStr k) old) (dict_get (VStr k) new)).
+Proof. exact reason_lemma. Qed.
+Print Assumptions reason_names_exactly_differing_keys.
+
+(** In the remaining out-of-date cases (environments that cannot be compared within the depth limit, or that
+    compare equal although the stamp changed, or that are not both dicts) diffEnv gives the generic reason
+    "environment changed", which names no key. *)
+Theorem generic_reason_names_no_key :
+  forallb (fun k => negb (is_substr k s_environment_changed)) function_env_keys = true.
+Proof. exact generic_reason_lemma. Qed.
+Print Assumptions generic_reason_names_no_key.
+
+(** The hypotheses are satisfiable. *)
+Example ex_hypotheses :
+  let a := VTuple [VInt 1; VInt 2; VInt 3] in
+  let b := VTuple [VInt 1; VInt 3] in
+  exhausted value (veq_d depth1000) 2000000 [VInt 1; VInt 2; VInt 3] [VInt 1; VInt 3] = Ok false /\
+  diff_depth 2000000 10 a b =
+    Ok (Some (DSlice a b [SE KCommon (VTuple [VInt 1]); SE KDelete (VTuple [VInt 2]); SE KCommon (VTuple [VInt 3])])) /\
+  valid_path Z (fun x y => Some (x =? y)) [3; 1] [1; 2; 3] [(0, 2); (1, 3); (2, 3)] = true.
+Proof. vm_compute. auto. Qed.
+
+Example ex_reason :
+  diff_env StampDiffers 2000000 (VDict [(VStr s_code, VInt 1); (VStr s_names, VInt 1)])
+                   (VDict [(VStr s_code, VInt 2); (VStr s_names, VInt 1)]) = Ok (false, s_code ++ s_changed).
+Proof. vm_compute. reflexivity. Qed.
